@@ -89,6 +89,23 @@ def gen_scenario(rng, focus):
     return AoScenario(calls, max_timers, posters)
 
 
+def gen_id_reuse(rng):
+    """sources with the SAME signal on one object, one of them cancelled, a new one posted in the freed slot, then an OLDER survivor
+    cancelled by its id: every id names one source for good, whatever was freed or reused in between"""
+    sig = rng.randrange(NSIG)
+    k = rng.randint(2, 3)
+    calls = [("timed", conc_corr.KINDC["F"], sig, rng.randint(1, 2), 0, int(rng.random() < 0.5)) for _ in range(k)]
+    first = rng.randrange(k)
+    calls.append(("cancel_event", first, int(rng.random() < 0.4), 0, 0, 0))
+    calls.append(("timed", conc_corr.KINDC["F"], sig, rng.randint(1, 2), 0, int(rng.random() < 0.5)))
+    survivors = [i for i in range(k) if i != first]
+    calls.append(("cancel_event", rng.choice(survivors), int(rng.random() < 0.4), 0, 0, 0))
+    if rng.random() < 0.4:
+        calls.append(("timed", conc_corr.KINDC["F"], sig, 1, 0, 1))
+        calls.append(("cancel_event", k, int(rng.random() < 0.4), 0, 0, 0))
+    return AoScenario(calls, rng.choice([4, 6]), [])
+
+
 class AoRun:
     pass
 
@@ -393,7 +410,7 @@ def explore(run, focus, n_random):
     rng = run.rng
     done = []
     for _ in range(n_random):
-        sc = gen_scenario(rng, focus)
+        sc = gen_id_reuse(rng) if (focus == "C11" and rng.random() < 0.2) else gen_scenario(rng, focus)
         seed = rng.randrange(1 << 30)
         r2 = random.Random(seed)
         eager = (focus == "C10" and r2.random() < 0.7) or r2.random() < 0.2
@@ -451,6 +468,10 @@ def run_handler_armed(spec, chooser, max_steps=2500):
                         except mao.ActiveObjectOutOfPostedEventResources:
                             pass
                     return return_status.HANDLED
+                if sn == "CAN":
+                    steps.append(("CAN", len(sched.trace)))
+                    chart.cancel_events(Event(signal="T%d" % e.payload))
+                    return return_status.HANDLED
                 if sn == "STOPME":
                     steps.append(("STOPME", len(sched.trace)))
                     chart.stop()
@@ -475,6 +496,9 @@ def run_handler_armed(spec, chooser, max_steps=2500):
             sched.name_obj(ao.fabric_task_event, "fab")
 
             def client():
+                if spec.get("restart"):
+                    sched.yield_point("call.restart")
+                    ao.start_at(s1)
                 for period, times, deferred, lifo in spec["client_timed"]:
                     sched.yield_point("call.timed")
                     (ao.post_lifo if lifo else ao.post_fifo)(Event(signal="T99", payload=500000), period=period, times=times,
@@ -482,6 +506,12 @@ def run_handler_armed(spec, chooser, max_steps=2500):
                 for _ in range(len(spec["arms"])):
                     sched.yield_point("call.post")
                     ao.post_fifo(Event(signal="ARM"))
+                for nm in spec.get("cancels", ()):
+                    for _ in range(spec["pauses"]):
+                        sched.yield_point("call.pause")
+                    mao.time.sleep(1)
+                    sched.yield_point("call.post")
+                    ao.post_fifo(Event(signal="CAN", payload=nm))
                 for _ in range(spec["pauses"]):
                     sched.yield_point("call.pause")
                 if spec["own_stop"]:
@@ -620,7 +650,7 @@ def own_model_steps(spec, res):
     return out
 
 
-def explore_handler_armed(run, n):
+def explore_handler_armed(run, n, focus="C12"):
     """C12 stream: sources armed by a run-to-completion step that is in progress / still queued when stop() is called.
     Tied runs (fifo sources with distinct names, stop() from another thread) are replayed on the Lean model `Conc.AOArm`
     (family `aoarm`); the others (lifo sources, shared names, a client-armed source, stop() from a handler) are checked by
@@ -641,6 +671,12 @@ def explore_handler_armed(run, n):
                              for _ in range(narms)],
                     "client_timed": [(rng.randint(1, 3), rng.choice([0, 2]), 1, 0)] if rng.random() < 0.4 else [],
                     "pauses": rng.choice([0, 0, 1, 2, 4]), "own_stop": rng.random() < 0.3, "tied": False}
+            if rng.random() < 0.5:
+                # some of the posted events make the chart cancel one of its own sources by name, from its handler
+                spec["cancels"] = [rng.randrange(2) for _ in range(rng.randint(1, 2))]
+            if spec["own_stop"]:
+                spec["more"] = rng.choice([0, 1, 2])                  # a backlog behind the event whose handler calls stop()
+                spec["restart"] = int(rng.random() < 0.4)             # start_at called again on the running object first
             if spec["own_stop"] and rng.random() < 0.6:
                 spec["late_stop"] = {"pauses": rng.choice([0, 1, 3, 8, 20]), "source": (rng.randint(1, 2), rng.choice([0, 0, 3]), int(rng.random() < 0.5), 0)}
         seed = rng.randrange(1 << 30)
@@ -653,26 +689,28 @@ def explore_handler_armed(run, n):
         trace = res["trace"]
         cj = {"what": "handler-armed", "spec": spec, "chooser": kind, "seed": seed, "schedule": [e[0] for e in trace]}
         run.count("handler-armed stream: stop() from %s%s" % ("a handler" if spec["own_stop"] else "another thread", ", tied to the model" if tied else ""))
+        if spec.get("restart"):
+            run.count("handler-armed stream: start_at called again on the running object before the events")
         if res["errors"]:
-            run.violate("C12/thread-error", "a thread died: %s" % res["errors"][:2], cj)
+            run.violate(focus + "/thread-error", "a thread died: %s" % res["errors"][:2], cj)
         if not spec["own_stop"]:
             done = res.get("stop_returned_at")
             if done is None:
                 if res["outcome"] != "bound":
-                    run.violate("C12/stop-never-returns", "stop() did not return (outcome %s)" % res["outcome"], cj)
+                    run.violate(focus + "/stop-never-returns", "stop() did not return (outcome %s)" % res["outcome"], cj)
                 run.case(cj, nontrivial=True)
                 continue
             if not res["finished"].get("C"):
-                run.violate("C12/thread-not-ended", "stop() returned but the active object's thread is still alive", cj)
+                run.violate(focus + "/thread-not-ended", "stop() returned but the active object's thread is still alive", cj)
             if any(i >= done for _, i in res["steps"]):
-                run.violate("C12/step-after-stop", "a run-to-completion step ran after stop() returned", cj)
+                run.violate(focus + "/step-after-stop", "a run-to-completion step ran after stop() returned", cj)
             late = [e for e in trace[done:] if e[0].startswith("timer") and e[1] in ("dq.append", "dq.appendleft")]
             if late:
-                run.violate("C12/post-after-stop-returned", "%s (armed by a handler: %d sources armed before stop() returned) placed an event "
+                run.violate(focus + "/post-after-stop-returned", "%s (armed by a handler: %d sources armed before stop() returned) placed an event "
                             "in the queue after stop() had returned" % (late[0][0], len(res["timers"])), cj)
             live = [t["name"] for t in res["timers"] if t["flag"]]
             if live:
-                run.violate("C12/source-not-cancelled", "timed sources %s still have their run flag set after stop() returned "
+                run.violate(focus + "/source-not-cancelled", "timed sources %s still have their run flag set after stop() returned "
                             "(%d still tracked)" % (live, res["tracked"]), cj)
             if any(i < done for nm, i in res["steps"] if nm == "ARM") and res["timers"]:
                 run.count("handler-armed stream: a source was armed by a step before stop() returned")
@@ -683,18 +721,18 @@ def explore_handler_armed(run, n):
             at = res.get("own_stop_returned_at")
             if at is not None:
                 if res["outcome"] == "quiescent" and not res["finished"].get("C"):
-                    run.violate("C12/thread-not-ended", "stop() was called from a handler but the object's thread never ended", cj)
+                    run.violate(focus + "/thread-not-ended", "stop() was called from a handler but the object's thread never ended", cj)
                 later = [nm for nm, i in res["steps"] if i > at]
                 if later:
-                    run.violate("C12/step-after-own-stop", "steps %s ran after the step whose handler called stop()" % later, cj)
+                    run.violate(focus + "/step-after-own-stop", "steps %s ran after the step whose handler called stop()" % later, cj)
                 after = set(t["name"] for t in res["timers"] if t["signal"] == "T98")       # armed by the client after the object stopped itself
                 late = [e for e in trace[at:] if e[0].startswith("timer") and e[1] in ("dq.append", "dq.appendleft") and e[0] not in after]
                 if late:
-                    run.violate("C12/post-after-stop-returned", "%s placed an event in the queue after the stop() called from a handler "
+                    run.violate(focus + "/post-after-stop-returned", "%s placed an event in the queue after the stop() called from a handler "
                                 "had returned" % late[0][0], cj)
                 live = [t["name"] for t in res["timers"] if t["flag"] and t["name"] not in after]
                 if live:
-                    run.violate("C12/source-not-cancelled", "timed sources %s still have their run flag set after the stop() called "
+                    run.violate(focus + "/source-not-cancelled", "timed sources %s still have their run flag set after the stop() called "
                                 "from a handler returned" % live, cj)
                 if tied and res["outcome"] != "bound":
                     own_done.append((spec, res, cj))
@@ -704,14 +742,14 @@ def explore_handler_armed(run, n):
                           % ("thread had ended" if at is not None and at < done else "thread still running"))
                 late2 = [e for e in trace[done:] if e[0].startswith("timer") and e[1] in ("dq.append", "dq.appendleft")]
                 if late2:
-                    run.violate("C12/post-after-stop-returned", "the object had stopped itself from a handler; a source armed afterwards posted (%s) "
+                    run.violate(focus + "/post-after-stop-returned", "the object had stopped itself from a handler; a source armed afterwards posted (%s) "
                                 "after the stop() called from outside had returned" % late2[0][0], cj)
                 live2 = [t["name"] for t in res["timers"] if t["flag"]]
                 if live2:
-                    run.violate("C12/source-not-cancelled", "the object had stopped itself from a handler; after a later stop() from outside returned "
+                    run.violate(focus + "/source-not-cancelled", "the object had stopped itself from a handler; after a later stop() from outside returned "
                                 "the timed sources %s still have their run flag set" % live2, cj)
             elif spec.get("late_stop") and res["outcome"] == "quiescent" and not res["finished"].get("K0"):
-                run.violate("C12/stop-never-returns", "stop() called from outside on an object that had stopped itself did not return", cj)
+                run.violate(focus + "/stop-never-returns", "stop() called from outside on an object that had stopped itself did not return", cj)
         run.case(cj, nontrivial=True)
     lines = []
     for spec, res, cj in tied_done:
@@ -1259,6 +1297,25 @@ def explore_subclass_capacity(run, focus, n):
 
 def run_timed_placement(spec, chooser, max_steps=3000):
     """events pending in the queue of an active object whose thread is not running yet, timed sources (fifo / lifo) firing on top"""
+    saved_cap = mhsm.HsmWithQueues.QUEUE_SIZE
+    if spec.get("cap"):
+        mhsm.HsmWithQueues.QUEUE_SIZE = spec["cap"]
+    try:
+        res = _run_timed_placement(spec, chooser, max_steps)
+        if res.get("queue") is not None and res.get("post_order") is not None and not res["errors"]:
+            # reference: the same pending events, then the timed events posted directly, in the order the timers fired
+            ref = mao.ActiveObject(name="R")
+            for k in range(spec["pending"]):
+                (ref.post_lifo if spec["pending_lifo"] else ref.post_fifo)(Event(signal="P%d" % k))
+            for k in res["post_order"]:
+                (ref.post_lifo if spec["sources"][k][0] else ref.post_fifo)(Event(signal="T%d" % k))
+            res["reference"] = [e.signal_name for e in ref.locking_deque.deque]
+        return res
+    finally:
+        mhsm.HsmWithQueues.QUEUE_SIZE = saved_cap
+
+
+def _run_timed_placement(spec, chooser, max_steps=3000):
     res = {"errors": []}
     saved_pp = mao.pp
     mao.pp = lambda x: None
@@ -1315,6 +1372,12 @@ def explore_timed_placement(run, focus, n):
         spec = {"pending": rng.randint(1, 3), "pending_lifo": int(rng.random() < 0.3),
                 "sources": [(int(rng.random() < 0.6), rng.choice([1, 2]), rng.choice([1, 1, 2]), int(rng.random() < 0.5)) for _ in range(nsrc)],
                 "sleep": 7}
+        if rng.random() < 0.3:
+            # at and around a small capacity: ONE source, so that its posts do not interleave with another timer's inside the
+            # overflow path of a post (which is not atomic; the properties exempt what overflow displaces)
+            spec["cap"] = rng.choice([2, 3, 4])
+            spec["pending"] = spec["cap"] - rng.choice([0, 0, 1])
+            spec["sources"] = spec["sources"][:1]
         seed = rng.randrange(1 << 30)
         res = run_timed_placement(spec, dsched.random_chooser(random.Random(seed), clock_bias=0.0))
         cj = {"what": "timed-placement", "spec": spec, "seed": seed, "schedule": [e[0] for e in res.get("trace", [])]}
@@ -1329,6 +1392,14 @@ def explore_timed_placement(run, focus, n):
         if q is None or order is None:
             run.case(cj, nontrivial=False)
             continue
+        fired = [order.count(k) for k in range(len(spec["sources"]))]
+        due = [src[2] for src in spec["sources"]]            # every source is finite and has run out long before the client looks
+        if fired != due:
+            run.violate("%s/timed-post-count" % focus, "timed sources %s (lifo?, period, times, deferred) onto a queue of capacity %s holding %d "
+                        "events: they placed %s events in %d ticks, expected %s" % (spec["sources"], spec.get("cap", 500), spec["pending"], fired,
+                                                                                      spec["sleep"], due), cj)
+            run.case(cj, nontrivial=True)
+            continue
         pend = ["P%d" % k for k in range(spec["pending"])]
         if spec["pending_lifo"]:
             pend.reverse()
@@ -1338,7 +1409,12 @@ def explore_timed_placement(run, focus, n):
                 want.insert(0, "T%d" % k)
             else:
                 want.append("T%d" % k)
-        counts_ok = sorted(x for x in q if x[0] == "T") == sorted(x for x in want if x[0] == "T")
+        if spec.get("cap"):
+            # at and around a small capacity: what direct post_fifo / post_lifo calls in the same order leave in the queue
+            want = res.get("reference", want)
+            pend = pend[-spec["cap"]:]
+            run.count("timed sources firing onto a queue of capacity %d holding %d" % (spec["cap"], spec["pending"]))
+        counts_ok = spec.get("cap") or sorted(x for x in q if x[0] == "T") == sorted(x for x in want if x[0] == "T")
         if counts_ok and q != want:
             kinds = {("T%d" % k): ("lifo" if s[0] else "fifo") for k, s in enumerate(spec["sources"])}
             run.violate("%s/timed-post-placement" % focus, "an object not started yet held %s; timed sources %s fired in the order %s; the queue is %s, "
